@@ -543,7 +543,8 @@ class ArgumentParser(ParserDeprecations, ActionsContainer, ArgumentLinking, argp
                 env_val = env[env_var]
                 if env_val in action.choices:
                     cfg[action.dest] = subcommand = self._check_value_key(action, env_val, action.dest, cfg)
-                    pcfg = action._name_parser_map[env_val].parse_env(env=env, defaults=defaults, _skip_validation=True)
+                    # only what the environment says: the subcommand's defaults enter below every other source (handle_subcommands)
+                    pcfg = action._name_parser_map[env_val].parse_env(env=env, defaults=False, _skip_validation=True)
                     for k, v in vars(pcfg).items():
                         cfg[subcommand + "." + k] = v
         for action in actions:
